@@ -1004,7 +1004,15 @@ def _expand_ifexp_statements(fnode, known=()):
                 for h in st.handlers:
                     h.body = rec(h.body)
             v = getattr(st, "value", None)
-            if isinstance(st, (ast.Assign, ast.Return, ast.AugAssign, ast.AnnAssign)) and isinstance(v, ast.IfExp) \
+            # (f if c else g)(args)  ->  f(args) if c else g(args)
+            if isinstance(v, ast.Call) and isinstance(v.func, ast.IfExp):
+                fx = v.func
+                v = ast.copy_location(ast.IfExp(test=fx.test,
+                                                body=ast.Call(func=fx.body, args=[clone(a) for a in v.args], keywords=[clone(k) for k in v.keywords]),
+                                                orelse=ast.Call(func=fx.orelse, args=[clone(a) for a in v.args], keywords=[clone(k) for k in v.keywords])), v)
+                ast.fix_missing_locations(v)
+                st.value = v
+            if isinstance(st, (ast.Assign, ast.Return, ast.AugAssign, ast.AnnAssign, ast.Expr)) and isinstance(v, ast.IfExp) \
                     and "<ifexp>:" + ast.unparse(st) not in known:
                 a, b = clone(st), clone(st)
                 a.value, b.value = clone(v.body), clone(v.orelse)
